@@ -32,6 +32,7 @@ type Engine struct {
 	globalInit       map[*ssa.Global]ast.Expr
 	loadSecs         float64
 	immRegions       map[string]bool
+	reachW           map[*ssa.Function]map[string]bool
 }
 
 func childEnv() []string {
@@ -244,6 +245,53 @@ func (e *Engine) immutableFieldRegion(r string) bool {
 		}
 	}
 	return e.immRegions[r]
+}
+
+// writersReachable: the immutable field regions whose declared writers can be reached from fn through static
+// calls inside the package (including fn itself). At a call to such a function those fields are not frozen.
+func (e *Engine) writersReachable(fn *ssa.Function) map[string]bool {
+	if fn == nil {
+		return nil
+	}
+	if e.reachW == nil {
+		e.reachW = map[*ssa.Function]map[string]bool{}
+	}
+	if r, ok := e.reachW[fn]; ok {
+		return r
+	}
+	writerOf := map[string][]string{} // function name -> regions
+	for _, fcl := range e.cs.Fields {
+		if fcl.Class != "immutable" {
+			continue
+		}
+		for _, w := range strings.Fields(strings.ReplaceAll(fcl.By, ",", " ")) {
+			writerOf[w] = append(writerOf[w], "F."+fcl.Type+"."+fcl.Field)
+		}
+	}
+	out := map[string]bool{}
+	seen := map[*ssa.Function]bool{}
+	var walk func(f *ssa.Function)
+	walk = func(f *ssa.Function) {
+		if f == nil || seen[f] {
+			return
+		}
+		seen[f] = true
+		for _, r := range writerOf[f.RelString(e.tpkg)] {
+			out[r] = true
+		}
+		for _, b := range f.Blocks {
+			for _, in := range b.Instrs {
+				if ci, ok := in.(ssa.CallInstruction); ok {
+					if callee := ci.Common().StaticCallee(); callee != nil && callee.Pkg == fn.Pkg {
+						walk(callee)
+					}
+				}
+			}
+		}
+	}
+	walk(fn)
+	e.reachW[fn] = out
+	return out
 }
 
 // checkImmutableFields returns the stores to immutable fields made outside their declared writers.
